@@ -31,7 +31,7 @@ import z3
 
 from pyvc import vals as V
 from pyvc import lib
-from pyvc.contract import Pack, T, OBJ, ANY, STR, BOOL
+from pyvc.contract import Pack, T, OBJ, ANY, STR, BOOL, BYTES
 from pyvc.engine import SV, Model, Raise, Exc, Unsupported
 
 from contracts import c16_reader as R
@@ -99,8 +99,8 @@ def build(active_known=frozenset()):
     pack.common_setup.append(R.setup)
     pack.trust("str.translate(table) is the character-wise homomorphism of its table; ''.join(list) concatenates the list's strings in order")
     pack.trust("StreamReader.peek / next_char / advance / pushback behave as proved in the C16 pack (their contracts are used here, not their bodies)")
-    pack.assume("covered: the string codec, nil / booleans / keywords / symbols / special floats, the collection printers, and the reader of numbers; the printers of numbers, regex, "
-                "byte strings, instants, UUIDs, namespace maps and *print-dup* printing are not under contract")
+    pack.assume("covered: the string codec, nil / booleans / keywords / symbols / special floats, the collection printers, the reader of numbers and the printer of byte strings; the printers of numbers, "
+                "regex, instants, UUIDs, namespace maps and *print-dup* printing are not under contract; the value read back from a byte string literal is covered by a bounded check only")
 
     # the StreamReader operation contracts proved in C16, assumed at call sites here
     for c in R.build(active_known=frozenset()).contracts:
@@ -138,6 +138,41 @@ def build(active_known=frozenset()):
                                                                                 z3.Concat(z3.StringVal('"'), TR(V.Val.s(a.o)), z3.StringVal('"')))))
     c.replay(lambda m, ctx, ob: STR_REPLAY)
     c.replay_without_model = True
+
+    # ------------------------------------------------------------------ 1b. the printer of byte strings
+    TRB = z3.Function("bytes_escape_code", z3.StringSort(), z3.StringSort())   # character-wise image under the byte escape table
+    LATIN1 = z3.Function("latin1_of_bytes", V.Val, z3.StringSort())          # one character per byte, code point = byte value
+
+    def bsetup(eng, st):
+        btable = getattr(obj, "_BYTES_ESCAPE_TABLE", None)
+
+        def translate(e, s, args, kw):
+            self, tbl = args
+            if btable is None or tbl is not btable:
+                raise Unsupported("str.translate with a table other than the byte-string escape table")
+            yield s, SV(V.mk_str(TRB(V.Val.s(self.t))))
+
+        eng.method_models[(str, "translate")] = Model("str.translate(byte-string escape table)", translate)
+
+        def decode(e, s, args, kw):
+            if list(args[1:]) != ["latin-1"]:
+                raise Unsupported("bytes.decode with a codec other than latin-1")
+            yield s, SV(V.mk_str(LATIN1(args[0].t)))
+
+        eng.method_models[(bytes, "decode")] = Model("bytes.decode('latin-1') (trusted: one character per byte, same code)", decode)
+
+    c = pack.contract("basilisp.lang.obj:_lrepr_bytes")
+    c.param("o", BYTES)
+    c.setup(bsetup)
+    c.raises()
+    c.ensures("a byte string prints as #b \"...\" around the byte-wise image of its content under one escape table (so nothing but the table decides what stands between "
+              "the quotes - in particular an embedded double quote is whatever the table makes of it)",
+              lambda a: z3.And(V.is_str(a.result), V.Val.s(a.result) == z3.Concat(z3.StringVal('#b "'), TRB(LATIN1(a.o)), z3.StringVal('"'))))
+    c.replay(lambda m, ctx, ob: BYTES_REPLAY)
+    c.replay_without_model = True
+    pack.extra.append(bytes_table_check)
+    pack.extra.append(bytes_bounded)
+    pack.extra.append(regex_bounded(active_known))
 
     # ------------------------------------------------------------------ 2. the tables (finite decision on the live objects)
     pack.extra.append(table_check(active_known))
@@ -579,6 +614,140 @@ for v in (vec.v(1, 2), llist.l(1, 2), lset.s(1), lqueue.q(1, 2), lqueue.q(), vec
         if len(back) == 1 and orig != inner:
             bad.append("%r: metadata of the elements %r reads back as %r" % (t, orig, inner))
 for line in bad[:10]:
+    print(line)
+print("REPRODUCED" if bad else "not reproduced")
+'''
+
+
+def bytes_table_check(tier, seed):
+    """complete enumeration over the 256 entries of the printer's table for byte strings: every byte has an entry, and the reader of byte
+    strings decodes that entry - on its own and followed by further text - to exactly that byte"""
+    import os
+
+    from basilisp.lang import obj, reader as rd
+    from pyvc.run import REPLAY_DIR, run_snippet
+
+    table = getattr(obj, "_BYTES_ESCAPE_TABLE", None)
+    problems = []
+    if not isinstance(table, dict):
+        problems.append("obj._BYTES_ESCAPE_TABLE is missing: the printer of byte strings does not use a translation table")
+    else:
+        for c in range(256):
+            esc = table.get(c)
+            if not isinstance(esc, str) or not esc:
+                problems.append(f"byte {c:#04x} has no escape entry")
+                continue
+            for tail, more in (("", b""), ("41", b"41"), ("x", b"x"), ('\\"', b'"')):
+                try:
+                    got = list(rd.read_str('#b "' + esc + tail + '"'))
+                except Exception as e:  # noqa: BLE001
+                    got = f"{type(e).__name__}: {e}"
+                if got != [bytes([c]) + more]:
+                    problems.append(f"the entry {esc!r} of byte {c:#04x} followed by {tail!r} reads as {got!r}")
+                    break
+    rec = {"name": "each of the 256 bytes has an entry in the printer's escape table for byte strings which the reader decodes, alone and followed by more text, to exactly that byte"
+                   + (f" [{'; '.join(problems[:4])}]" if problems else ""),
+           "kind": "escape-table", "verdict": "refuted" if problems else "proved", "backend": "enumeration", "time_s": 0.0, "line": 0}
+    if problems:
+        p = os.path.join(REPLAY_DIR, "C03", "bytes_round_trip.py")
+        okr, outp = run_snippet("# replay for property C03\n# failed obligation: " + rec["name"][:300] + "\n" + BYTES_REPLAY, p)
+        rec.update(replay=p, reproduced=okr, replay_output=outp[-1500:], model={"problems": problems[:6]})
+    return [{"key": "escape-tables:basilisp.lang.obj:_lrepr_bytes/basilisp.lang.reader:_read_byte_str", "file": "src/basilisp/lang/obj.py", "lines": [0, 0], "error": None,
+             "obligations": [rec], "extra": True, "time_s": 0.0}]
+
+
+def bytes_bounded(tier, seed):
+    """bounded stand-in for what is not proved about byte strings - that _read_byte_str decodes a text chunk by chunk (its value-level loop
+    invariant is not written): every byte string of length <= 2 over an alphabet of 48 bytes, and every single byte, is printed and read back"""
+    import os
+
+    from pyvc.run import REPLAY_DIR, run_snippet
+
+    p = os.path.join(REPLAY_DIR, "C03", "bytes_round_trip.py")
+    failed, outp = run_snippet("# bounded check for property C03\n# functions: basilisp.lang.obj:_lrepr_bytes, basilisp.lang.reader:_read_byte_str\n" + BYTES_REPLAY, p)
+    ran = "cases " in outp
+    rec = {"name": "[bounded: every single byte, every byte string of length <= 2 over 48 bytes; 2561 cases] printing a byte string and reading the text gives the byte string back",
+           "kind": "bounded", "bounded": True, "line": 0, "time_s": 0.0, "backend": "concrete execution of the real functions", "verdict": "refuted" if failed else ("bounded-ok" if ran else "unknown")}
+    if failed:
+        rec.update(replay=p, reproduced=True, replay_output=outp[-1500:], model={})
+    return [{"key": "bounded:basilisp.lang.obj:_lrepr_bytes+basilisp.lang.reader:_read_byte_str", "file": "src/basilisp/lang/obj.py", "lines": [0, 0],
+             "error": None if (ran or failed) else "the bounded check did not run: " + outp[-300:], "obligations": [rec], "extra": True, "bounded": True,
+             "bound": "every single byte; every byte string of length <= 2 over 48 bytes", "cases": 2561, "result": "a case fails" if failed else "all cases round-trip", "time_s": 0.0}]
+
+
+def regex_bounded(active_known):
+    """bounded stand-in for regex patterns (their printer and the raw-string reader are not under contract): a fixed list of patterns is
+    printed readably and read back.  With the known finding C03-regex-not-readable active, the patterns of its input class - those holding
+    a backslash, a double quote or a character outside printable ASCII - are left out (the finding's own witness covers them)."""
+    import os
+
+    from pyvc.run import REPLAY_DIR, run_snippet
+
+    def check(tier, seed):
+        carve = "C03-regex-not-readable" in active_known
+        p = os.path.join(REPLAY_DIR, "C03", "regex_round_trip.py")
+        failed, outp = run_snippet("# bounded check for property C03\n# functions: basilisp.lang.obj:_lrepr_pattern, basilisp.lang.reader:_read_regex\n"
+                                   + REGEX_REPLAY.replace("@CARVE@", repr(carve)), p)
+        ran = "cases " in outp
+        rec = {"name": "[bounded: a fixed list of patterns" + (", without the input class of known finding C03-regex-not-readable" if carve else "") + "] printing a regex pattern "
+                       "readably and reading the text gives an equal pattern",
+               "kind": "bounded", "bounded": True, "line": 0, "time_s": 0.0, "backend": "concrete execution of the real functions", "verdict": "refuted" if failed else ("bounded-ok" if ran else "unknown")}
+        if failed:
+            rec.update(replay=p, reproduced=True, replay_output=outp[-1500:], model={})
+        return [{"key": "bounded:basilisp.lang.obj:_lrepr_pattern+basilisp.lang.reader:_read_regex", "file": "src/basilisp/lang/obj.py", "lines": [0, 0],
+                 "error": None if (ran or failed) else "the bounded check did not run: " + outp[-300:], "obligations": [rec], "extra": True, "bounded": True,
+                 "bound": "a fixed list of 24 patterns" + (" minus those with a backslash, a double quote or a non-printable / non-ASCII character" if carve else ""),
+                 "result": "a case fails" if failed else "all cases round-trip", "time_s": 0.0}]
+
+    return check
+
+
+REGEX_REPLAY = r'''
+import re
+from basilisp.lang import reader
+from basilisp.lang.obj import lrepr
+CARVE = @CARVE@
+patterns = ["", "a", "a+b*", "[a-z]+", "(x|y)?", "^abc$", "a{2,3}", ".", "a b", "(?i)abc", "[^,;]", "x|", r"\d+", r"\s", r"a\.b", r"\\", "a\"b", r"\"", "a\nb", "\t", "\u00e9", "\u4e2d", "[\"']", r"\bfoo\b"]
+cases, bad = 0, []
+for p in patterns:
+    if CARVE and ("\\" in p or '"' in p or any(not (" " <= ch <= "~") for ch in p)):
+        continue
+    cases += 1
+    pat = re.compile(p)
+    text = lrepr(pat)
+    try:
+        back = list(reader.read_str(text))
+    except Exception as e:
+        back = "%s: %s" % (type(e).__name__, e)
+    if not (isinstance(back, list) and len(back) == 1 and isinstance(back[0], re.Pattern) and back[0] == pat):
+        bad.append("%r prints as %s, which reads as %r" % (p, text, [getattr(b, "pattern", b) for b in back] if isinstance(back, list) else back))
+print("cases", cases)
+for line in bad[:8]:
+    print(line)
+print("REPRODUCED" if bad else "not reproduced")
+'''
+
+
+BYTES_REPLAY = r'''
+import itertools
+from basilisp.lang import reader
+from basilisp.lang.obj import lrepr
+alphabet = [0x00, 0x01, 0x07, 0x08, 0x09, 0x0a, 0x0b, 0x0c, 0x0d, 0x1b, 0x1f, 0x20, 0x21, 0x22, 0x23, 0x27, 0x30, 0x31, 0x34, 0x39, 0x41, 0x46, 0x5c, 0x5d, 0x61, 0x62, 0x66, 0x6e, 0x72, 0x74,
+            0x75, 0x76, 0x78, 0x7b, 0x7e, 0x7f, 0x80, 0x81, 0x9f, 0xa0, 0xc3, 0xa9, 0xe9, 0xfe, 0xff, 0x3b, 0x2c, 0x60]
+cases = [bytes([c]) for c in range(256)] + [b""] + [bytes(t) for t in itertools.product(alphabet, repeat=2)]
+bad = []
+for b in cases:
+    text = lrepr(b)
+    try:
+        back = list(reader.read_str(text))
+    except Exception as e:
+        back = "%s: %s" % (type(e).__name__, e)
+    if back != [b] or (back and type(back[0]) is not bytes):
+        bad.append("%r prints as %s, which reads as %r" % (b, text, back))
+    elif lrepr(back[0]) != text:
+        bad.append("%r: printing the re-read value gives %s instead of %s" % (b, lrepr(back[0]), text))
+print("cases", len(cases))
+for line in bad[:8]:
     print(line)
 print("REPRODUCED" if bad else "not reproduced")
 '''
